@@ -31,6 +31,7 @@ import (
 	"github.com/gin-gonic/gin"
 
 	"verifmc/demonwire"
+	"verifmc/ev"
 )
 
 func init() {
@@ -164,6 +165,15 @@ func (ts *TS) Post(body []byte) Result {
 	return Serve(ts.HTTP.GinEngine, req)
 }
 
+// notePanic reports a recovered handler panic to the evidence layer (the controlled
+// scheduler's teardown signal is not a panic of the code under test).
+func notePanic(where string, p any, stack string) {
+	if strings.Contains(fmt.Sprintf("%T", p), "abortT") {
+		return
+	}
+	ev.NotePanic(where, p, stack)
+}
+
 // Serve runs one request through a gin engine, recovering a panic of the handler.
 func Serve(e *gin.Engine, req *http.Request) (res Result) {
 	rec := httptest.NewRecorder()
@@ -171,6 +181,7 @@ func Serve(e *gin.Engine, req *http.Request) (res Result) {
 		if p := recover(); p != nil {
 			res.Panic = p
 			res.Stack = StackTop()
+			notePanic("http", p, res.Stack)
 		}
 	}()
 	e.ServeHTTP(rec, req)
@@ -190,6 +201,7 @@ func External(e *handlers.External, body []byte) (res Result) {
 		if p := recover(); p != nil {
 			res.Panic = p
 			res.Stack = StackTop()
+			notePanic("external", p, res.Stack)
 		}
 	}()
 	e.Request(ctx)
